@@ -264,9 +264,9 @@ func (z *zone) define(in ssa.Instruction) {
 
 type zonePathResult struct {
 	paths, successReturns, bad int
-	witness               []string
-	detail                string
-	undecided             string
+	witness                    []string
+	detail                     string
+	undecided                  string
 }
 
 // checkZoneFunction enumerates the acyclic paths of fn and, at every return
